@@ -8,6 +8,7 @@ package metadata
 //@ spec func conflict(a bytes, b bytes) bool = hasprefix(a, b) || hasprefix(b, a)
 
 //@ func HasConflictingPrefixes props C39
+//@   reveal P
 //@   loop 1 invariant 0 <= idx1 && idx1 <= len(prefixes) && len(prefixes) == 3 + len(vmPrefixes)
 //@   loop 1 invariant forall k int :: 0 <= k && k < len(prefixes) ==> str(prefixes[k]) == P(m, vmPrefixes, k)
 //@   loop 1 invariant len(verifiedPrefixes) == idx1
